@@ -197,12 +197,25 @@ func c36Edges(fn *ssa.Function, spec string, canon func(string) string) (map[edg
 			}
 		}
 	}
+	threadedGuardEdgesCanon(fn, g, canon, edges, &descr)
 	return edges, descr
 }
 
 // c36Reach: blocks (with the number of leading instructions) reachable from the entry
 // without crossing a removed edge or executing a barrier instruction.
 func c36Reach(fn *ssa.Function, removed map[edge]bool, barrier func(ssa.Instruction) bool) map[*ssa.BasicBlock]int {
+	if lim := reachUnguardedBarrier(fn, removed, func(b *ssa.BasicBlock) int {
+		if barrier != nil {
+			for i, in := range b.Instrs {
+				if barrier(in) {
+					return i
+				}
+			}
+		}
+		return -1
+	}); lim != nil {
+		return lim // infeasible paths through merged conditions pruned
+	}
 	limit := map[*ssa.BasicBlock]int{}
 	if len(fn.Blocks) == 0 {
 		return limit
@@ -248,6 +261,19 @@ func c36GuardInstrs(c *Ctx, rule string, fn *ssa.Function, effName string, effs 
 		removed, descr := c36Edges(fn, gs, canon)
 		c.EdgesRemoved += len(removed)
 		limit := c36Reach(fn, removed, barrier)
+		// per-path blocking through merged conditions (`ok := a && b; if !ok {`), when the function has any
+		if lim := reachGuardedCanon(fn, parseGuard(gs), canon, removed, func(b *ssa.BasicBlock) int {
+			if barrier != nil {
+				for i, in := range b.Instrs {
+					if barrier(in) {
+						return i
+					}
+				}
+			}
+			return -1
+		}); lim != nil {
+			limit = lim
+		}
 		var bad []string
 		for _, e := range effs {
 			if lim, ok := limit[e.Block()]; ok && indexIn(e.Block(), e) < lim {
